@@ -1387,7 +1387,7 @@ func SubqueryExpr(query *Query, current Map, expr *sqlparser.Subquery, opts ...E
 	if err != nil {
 		return nil, err
 	}
-	rs, err := subQuery.exec()
+	rs, err := subQuery.execNested()
 	if err != nil {
 		return nil, err
 	}
@@ -1444,7 +1444,7 @@ func ExistExpr(query *Query, current Map, expr *sqlparser.ExistsExpr, opts ...Ex
 		from[i] = merged
 	}
 	q.from = from
-	rs, err := q.exec()
+	rs, err := q.execNested()
 	array, ok := rs.([]any)
 	if !ok {
 		return false, INVALID_TYPE.Extend(fmt.Sprintf("failed to build `EXIST` expression. expected an array but found %T", array))
@@ -2020,7 +2020,7 @@ func (query *Query) exec() (result any, err error) {
 				copy := CopyQuery(query)
 				copy.postProcessors = nil
 				copy.from = current
-				rs, err := copy.exec()
+				rs, err := copy.execNested()
 				if err != nil {
 					return nil, err
 				}
@@ -2100,6 +2100,19 @@ func (query *Query) exec() (result any, err error) {
 FINALIZE:
 	if query.options.completed != nil {
 		query.options.completed()
+	}
+	return rs, nil
+}
+
+// execNested evaluates a query on behalf of an enclosing one, which adopts what
+// it leaves unfinished. When the evaluation fails there is nothing to adopt: the
+// asynchronous calls it had started for its earlier rows are waited for here, so
+// that the failure is not reported while they are still running
+func (query *Query) execNested() (any, error) {
+	rs, err := query.exec()
+	if err != nil {
+		query.wg.Wait()
+		return nil, err
 	}
 	return rs, nil
 }
